@@ -167,6 +167,9 @@ type synResult struct {
 	File     directives.File
 	NumDirs  int
 	ErrDepth int
+	LocOK    bool   // err: every link's Location() and the rendered line:col are the reference position, inside the text
+	LocInfo  string // err: why not
+	LocWide  bool   // err: some link has non-ASCII text before its position on the same line
 }
 
 func (r synResult) String() string {
@@ -216,6 +219,107 @@ func synFrames(err error, text, path string) (frames string, depth int, textOK b
 	return strings.Join(parts, ","), len(chain), textOK, detail
 }
 
+// ---------------------------------------------------------------- the rendered error position (C07_error_renderable)
+
+// c07RefLocation is the harness's own reference for Range.Location(): the 1-based line and the 1-based column, counted
+// in decoded characters (an invalid byte is one character), of the byte offset end of text. An offset that is not the
+// start of a character of the text (inside a character, negative, beyond the end) is the end of the text.
+func c07RefLocation(text string, end int) (line, col int) {
+	line, col = 1, 1
+	for off := 0; off < len(text); {
+		if off == end {
+			return line, col
+		}
+		_, w := utf8.DecodeRuneInString(text[off:])
+		if text[off] == '\n' {
+			line++
+			col = 1
+		} else {
+			col++
+		}
+		off += w
+	}
+	return line, col
+}
+
+// c07LocInside: line:col is a position of the text: 1 <= line <= number of lines (the text after the last line break,
+// possibly empty, is a line), 1 <= col <= characters of that line + 1.
+func c07LocInside(text string, line, col int) bool {
+	if line < 1 || col < 1 {
+		return false
+	}
+	start := 0
+	for l := 1; l < line; l++ {
+		i := strings.IndexByte(text[start:], '\n')
+		if i < 0 {
+			return false
+		}
+		start += i + 1
+	}
+	end := strings.IndexByte(text[start:], '\n')
+	if end < 0 {
+		end = len(text) - start
+	}
+	return col <= utf8.RuneCountInString(text[start:start+end])+1
+}
+
+type c07LocCheck struct {
+	ok   bool
+	info string
+	wide bool // non-ASCII text between the start of the line and the position, in some link
+}
+
+func (k *c07LocCheck) fail(format string, a ...any) {
+	if k.ok {
+		k.ok = false
+		k.info = fmt.Sprintf(format, a...)
+	}
+}
+
+// render rebuilds what Error() has to print for a chain, from the reference positions, checking every link on the way.
+func (k *c07LocCheck) render(err error) string {
+	de, isDe := err.(directives.Error)
+	if !isDe {
+		return err.Error()
+	}
+	var s strings.Builder
+	if de.Wrapped != nil {
+		s.WriteString(k.render(de.Wrapped))
+		s.WriteString("\n")
+	}
+	if len(de.Path) > 0 {
+		s.WriteString(de.Path)
+		s.WriteString(": ")
+	}
+	line, col := c07RefLocation(de.Text, de.End)
+	loc := de.Range.Location()
+	if loc.Line != line || loc.Col != col {
+		k.fail("link %q range [%d,%d): Location() = %d:%d, the position of offset %d is %d:%d", de.Message, de.Start, de.End, loc.Line, loc.Col, de.End, line, col)
+	}
+	if !c07LocInside(de.Text, loc.Line, loc.Col) {
+		k.fail("link %q range [%d,%d): Location() = %d:%d is not a position inside the text", de.Message, de.Start, de.End, loc.Line, loc.Col)
+	}
+	if e := de.End; e >= 0 && e <= len(de.Text) {
+		if !isASCII(de.Text[strings.LastIndexByte(de.Text[:e], '\n')+1 : e]) {
+			k.wide = true
+		}
+	}
+	fmt.Fprintf(&s, "%d:%d %s", line, col, de.Message)
+	return s.String()
+}
+
+// c07ErrLocations evaluates, on a returned error, the clause of C07_error_renderable about positions: for every link of
+// the chain Location() is the (character-counted) position of the link's end offset and lies inside the text, and the
+// text Error() renders carries exactly these line:col.
+func c07ErrLocations(err error) c07LocCheck {
+	k := c07LocCheck{ok: true}
+	want := k.render(err)
+	if got := err.Error(); got != want {
+		k.fail("Error() renders %q, with the positions of the chain's offsets it is %q", clipTo(got, 600), clipTo(want, 600))
+	}
+	return k
+}
+
 // synRangesOK: every range of a tree carries the text and path it was parsed from, and Extract() is the slice.
 func synRangesOK(ranges []directives.Range, text, path string) (bool, string) {
 	for _, r := range ranges {
@@ -253,6 +357,8 @@ func implParse(text, path string) synResult {
 			res.Outcome = "err"
 			res.Message = err.Error() // rendering must not panic either
 			res.Frames, res.ErrDepth, res.TextOK, res.Detail = synFrames(err, text, path)
+			k := c07ErrLocations(err)
+			res.LocOK, res.LocInfo, res.LocWide = k.ok, k.info, k.wide
 			return
 		}
 		res.Outcome = "ok"
@@ -283,6 +389,7 @@ type synGen struct {
 	nl      string // line terminator inside and after directives
 	ws      []string
 	unicode bool
+	rich    bool // stream errpos: much non-ASCII text of every encoded width in names and free text
 	tags    map[string]bool
 }
 
@@ -336,6 +443,9 @@ func (g *synGen) segment() string {
 		s := Pick(g.r, synLetters)
 		if !g.unicode && !isASCII(s) {
 			s = "q"
+		}
+		if g.rich && g.r.Chance(1, 2) {
+			s = Pick(g.r, synWideLetters)
 		}
 		b.WriteString(s)
 	}
@@ -405,6 +515,9 @@ func (g *synGen) freeText(noQuote bool) string {
 		w := Pick(g.r, words)
 		if !g.unicode && !isASCII(w) {
 			w = "w"
+		}
+		if g.rich && g.r.Chance(1, 2) {
+			w = Pick(g.r, synWideWords)
 		}
 		b.WriteString(w)
 	}
@@ -542,8 +655,18 @@ func (g *synGen) directive0() (string, string) {
 }
 
 // synJournal generates a mostly valid journal text in a random layout.
-func synJournal(r *RNG) (string, []string) {
-	g := &synGen{r: r, nl: "\n", ws: []string{" ", " ", "\t"}, tags: map[string]bool{}}
+func synJournal(r *RNG) (string, []string) { return synJournalOpt(r, false) }
+
+// letters of 2, 3 and 4 encoded bytes (unicode.IsLetter / IsDigit: legal in account and commodity names)
+var synWideLetters = []string{"é", "ü", "ß", "Ω", "я", "ñ", "ä", "ö", "Zürich", "Gebäude", "漢", "字", "ก", "한", "ẞ", "𝒜", "𐐷", "𠀀", "٣", "७", "５", "𝟗", "Ǆ", "ʰ", "ª"}
+
+// free text of every kind (legal in descriptions, include paths and comments): 2-4 byte characters, combining marks,
+// emoji with joiners and variation selectors, invisible characters, U+FFFD, U+0085, U+2028
+var synWideWords = []string{"Caf\u00e9", "Z\u00fcrich", "\u00dcbergr\u00f6\u00dfe", "na\u00efve", "\u20ac", "\u00a35", "\u2013", "\u2026", "\u201cx\u201d", "\u6f22\u5b57", "\u304b\u306a", "\ud55c\uad6d\uc5b4", "\u0e44\u0e17\u0e22", "\U0001f600", "\U0001f469\u200d\U0001f469\u200d\U0001f467", "\u2764\ufe0f", "\U0001f1e8\U0001f1ed", "\U0001d49c\U0001d4b7", "e\u0301", "a\u0308\u0323", "o\u0302\u0301\u0300", "\u0301", "\u200b", "\u00a0", "\ufeff", "\ufffd", "\u0085", "\u2028", "\U0010ffff", "\u07ff\u0800", "\uffff\U00010000", "\u00e9\u00e9\u00e9\u00e9\u00e9\u00e9\u00e9\u00e9\u00e9\u00e9\u00e9\u00e9\u00e9\u00e9\u00e9\u00e9\u00e9\u00e9\u00e9\u00e9\u00e9\u00e9\u00e9", "\u5b57\u5b57\u5b57\u5b57\u5b57\u5b57\u5b57\u5b57\u5b57\u5b57\u5b57\u5b57\u5b57\u5b57\u5b57\u5b57"}
+
+// synJournalOpt: rich forces the non-ASCII vocabulary (the random draws of the plain generator are unchanged).
+func synJournalOpt(r *RNG, rich bool) (string, []string) {
+	g := &synGen{r: r, nl: "\n", ws: []string{" ", " ", "\t"}, tags: map[string]bool{}, rich: rich}
 	switch r.Intn(6) {
 	case 0:
 		g.nl = "\r\n"
@@ -553,12 +676,18 @@ func synJournal(r *RNG) (string, []string) {
 		g.ws = []string{" ", "\t", "\r", "  "}
 	}
 	g.unicode = r.Chance(1, 2)
+	if rich {
+		g.unicode = true
+	}
 	if g.unicode {
 		g.tag("unicode")
 	}
 	var b strings.Builder
 	var kinds []string
 	n := r.Range(0, 7)
+	if rich {
+		n = r.Range(1, 5)
+	}
 	gap := func(afterTrx bool) {
 		// a transaction's range ends after the line break of its last booking, and must be followed by a blank line
 		k := r.Intn(6)
@@ -608,6 +737,77 @@ func synJournal(r *RNG) (string, []string) {
 		kinds = append(kinds, "~invisible-prefix")
 	}
 	return text, kinds
+}
+
+// synErrTriggers: what is put at the chosen position to break the directive there.
+var synErrTriggers = []string{"!", "!", "\"", ":", "::", " ", "  x", " 1", "\t", ",", "(", ")", "-", ".", "@", "$", "#", "1", "x", "é", "漢", "😀", "\u0301", "\u200b", "\u00a0", "\ufeff", "\ufffd", "\r", "\n", "\x00", "\xff", "\xc3", "\xe2\x82", "\xf0\x9f\x98", "\x80", "\xed\xa0\x80", "\xc0\x80"}
+
+// synErrPos builds a text that is broken at a position which has non-ASCII text before it on the same line: a journal
+// in the non-ASCII vocabulary, one position chosen among the character boundaries behind a non-ASCII character of
+// their line, and there an inserted or replacing trigger, a deleted character, a deleted rest of the line, or the end
+// of the text (with or without a trigger). Whether and where the parser reports an error is up to the parser.
+func synErrPos(r *RNG) (string, []string) {
+	text, kinds := synJournalOpt(r, true)
+	var cand []int
+	wide := false
+	for off := 0; off < len(text); {
+		if wide {
+			cand = append(cand, off)
+		}
+		_, w := utf8.DecodeRuneInString(text[off:])
+		if text[off] == '\n' {
+			wide = false
+		} else if text[off] >= 0x80 {
+			wide = true
+		}
+		off += w
+	}
+	if wide {
+		cand = append(cand, len(text))
+	}
+	if len(cand) == 0 {
+		return synMutate(r, text), append(kinds, "errpos-none")
+	}
+	p := Pick(r, cand)
+	if r.Chance(1, 3) { // the end of a line is the position most errors are reported at
+		for p < len(text) && text[p] != '\n' {
+			p++
+		}
+		if r.Chance(1, 3) && p > 0 && text[p-1] == '\r' {
+			p--
+		}
+	}
+	w := 0
+	if p < len(text) {
+		_, w = utf8.DecodeRuneInString(text[p:])
+	}
+	eol := p
+	for eol < len(text) && text[eol] != '\n' {
+		eol++
+	}
+	trig := Pick(r, synErrTriggers)
+	var op string
+	switch r.Intn(8) {
+	case 0, 1:
+		text, op = text[:p]+trig+text[p:], "insert"
+	case 2:
+		text, op = text[:p]+trig+text[p+w:], "replace"
+	case 3:
+		text, op = text[:p], "cut"
+	case 4:
+		text, op = text[:p]+trig, "cut+trigger"
+	case 5:
+		text, op = text[:p]+text[p+w:], "delete"
+	case 6:
+		text, op = text[:p]+text[eol:], "delete-rest-of-line"
+	default:
+		text, op = text[:p]+trig+text[eol:], "replace-rest-of-line"
+	}
+	if r.Chance(1, 6) {
+		text = synMutate(r, text)
+		op += "+mutated"
+	}
+	return text, []string{"errpos", "errpos-" + op}
 }
 
 var synInteresting = []string{"\xef\xbb\xbf", "\xc2\xa0", "\xe2\x80\x8b", "\xe2\x80\xa8", "\xc2\x85", "\x0b", "\x0c", " ", "\t", "\r", "\n", "\"", ":", "-", ".", ",", "(", ")", "@", "$", "#", "*", "/", "//", "i", "a", "0", "\xff", "\xc3", "\xe2\x82", "\x80", "\x00", "\xef\xbf\xbd", "é", "include", "open", "balance", "@performance", "@accrue", "daily", "\r\n", "\n\n", "2020-01-01", "A:B"}
@@ -757,7 +957,8 @@ func genScanScript(r *RNG) []string {
 func scanCur(s *scanner.Scanner) string { return strconv.Itoa(int(s.Current())) }
 
 // implScan runs a script on the real scanner: one result per call, stopping at the first error.
-func implScan(text, path string, ops []string) (res string) {
+func implScan(text, path string, ops []string) (res string, loc c07LocCheck) {
+	loc.ok = true
 	defer func() {
 		if r := recover(); r != nil {
 			res += ";panic " + fmt.Sprint(r)
@@ -766,10 +967,11 @@ func implScan(text, path string, ops []string) (res string) {
 	s := scanner.New(text, path)
 	errString := func(err error) string {
 		frames, _, _, _ := synFrames(err, text, path)
+		loc = c07ErrLocations(err)
 		return "err:" + frames + ":" + strconv.Itoa(s.Offset()) + ":" + Hex(err.Error())
 	}
 	if err := s.Advance(); err != nil {
-		return errString(err)
+		return errString(err), loc
 	}
 	var b strings.Builder
 	fmt.Fprintf(&b, "ok:%d:%s", s.Offset(), scanCur(s))
@@ -807,11 +1009,11 @@ func implScan(text, path string, ops []string) (res string) {
 		}
 		if err != nil {
 			b.WriteString(";" + errString(err))
-			return b.String()
+			return b.String(), loc
 		}
 		fmt.Fprintf(&b, ";ok:%d:%d:%d:%s", rg.Start, rg.End, s.Offset(), scanCur(s))
 	}
-	return b.String()
+	return b.String(), loc
 }
 
 // ---------------------------------------------------------------- classes
@@ -938,6 +1140,10 @@ func (x *c07run) one(stream string, index int, text string, kinds []string) {
 		}, "c07tree", hx, res.Dump)
 	case "err":
 		c.Monitor(stream, index, "C07_error_renderable(text identity)", in, res.TextOK, res.Detail)
+		c.Monitor(stream, index, "C07_error_renderable(every line:col is the position of the link's offset, inside the text)", in, res.LocOK, res.LocInfo+" | "+clipTo(res.Message, 300))
+		if res.LocWide {
+			c.Tag(stream + "/err/non-ascii-before-position")
+		}
 		x.bt.Add(func(mon string) {
 			c.Monitor(stream, index, "errOK", in, mon == "ok", "frames "+res.Frames+" len "+strconv.Itoa(len(text))+" => "+mon)
 		}, "c07err", strconv.Itoa(len(text)), res.Frames)
@@ -1052,9 +1258,13 @@ func runC07(c *Ctx) {
 		}
 		ops := genScanScript(r)
 		c.Evals++
-		impl := implScan(text, c07Path, ops)
+		impl, loc := implScan(text, c07Path, ops)
 		in := map[string]any{"text_hex": hex.EncodeToString([]byte(text)), "script": strings.Join(ops, ",")}
 		c.Monitor("scan", i, "C07_total(scanner)", in, !strings.Contains(impl, ";panic"), impl)
+		c.Monitor("scan", i, "C07_error_renderable(every line:col is the position of the link's offset, inside the text)", in, loc.ok, loc.info)
+		if loc.wide {
+			c.Tag("scan/err/non-ascii-before-position")
+		}
 		c.Class("scan/" + scanShape(ops) + "/" + scanOutcome(impl))
 		x.bt.Add(func(model string) { c.Compare("scan", i, "c07scan", in, impl, model) }, "c07scan", Hex(c07Path), Hex(text), strings.Join(ops, ","))
 	}
@@ -1112,6 +1322,17 @@ func runC07(c *Ctx) {
 		r := c.Rng("mutated", i)
 		text, _ := synJournal(r)
 		x.one("mutated", i, synMutate(r, text), []string{"mutated"})
+	}
+
+	// ---- stream errpos: texts broken at a position that has non-ASCII text (2-, 3-, 4-byte characters, combining marks,
+	// invisible characters) before it on the same line, so that the byte offset of the error and its column differ
+	nE := c.N(8000, 250000)
+	for i := 0; i < nE; i++ {
+		if !c.Want("errpos", i) {
+			continue
+		}
+		text, kinds := synErrPos(c.Rng("errpos", i))
+		x.one("errpos", i, text, kinds)
 	}
 
 	// ---- stream prefixes: every prefix of some valid journals (truncated directives)
